@@ -348,4 +348,4 @@ def replay(task, script):
 
 def bounds(tier):
     return {"repro_T": 5 if tier == "quick" else 6, "repro_seeds": 4 if tier == "quick" else 16, "interleaving_half_steps": "2 rounds each (70 interleavings x 16 reward assignments)",
-            "interleaving_rounds": "%d rounds each" % (3 if tier == "quick" else 4), "pairs": "all unordered pairs of 16 RNG-free variants incl. same class"}
+            "interleaving_rounds": "%d rounds each" % (3 if tier == "quick" else 4), "pairs": "all unordered pairs of the %d RNG-free variants incl. same class" % len([1 for (l, a, p) in _variants() if a != "VROOM"])}
